@@ -150,14 +150,14 @@ def gen_embed_cases(ctx, suffix, scale):
     return C
 
 
-def load_corpus():
+def load_corpus(field="cases"):
     d = os.path.join(vlib.VERIF, "corpus", "C05")
     out = []
     if os.path.isdir(d):
         for f in sorted(os.listdir(d)):
             if f.endswith(".json"):
                 j = json.load(open(os.path.join(d, f)))
-                for i, (op, args) in enumerate(j.get("cases", [])):
+                for i, (op, args) in enumerate(j.get(field, [])):
                     out.append(("k_%s_%d" % (f[:-5], i), op, args))
     return out
 
@@ -238,6 +238,270 @@ def run_embed(ctx, model, harness, harness_asan):
                     break
 
 
+# ---------------------------------------------------------------------------------------------
+# whole payloads: MockMiner-built ATV/VTB/VbkBlock/PopData and their single-field mutations
+# ---------------------------------------------------------------------------------------------
+# shape of the harness world (checked against its `world` line)
+WORLD = {"nvtb": 5, "natv": 3, "ctx": 3, "btclayers": 3, "vtblayers": 5, "atvlayers": 4}
+# Mutations that may legitimately still be accepted (claim N) — semantically neutral for stateless validation:
+#  * Merkle index bits at or above the number of hashed layers (BTC path: bit >= #layers; VBK path: index bit >= #layers-2,
+#    treeIndex bit >= 1): calculateMerkleRoot never reads them (lemma btc_spec_index_low / vbk_side)
+#  * header fields of blockOfProof / containingBlock other than the Merkle root: validated contextually, not statelessly
+#  * re-signed transactions that differ only in fields no stateless rule constrains (type id, payout info, signature index,
+#    amounts with a non-negative fee, <= 255 outputs), a context with its first/last block dropped, a changed LAST context
+#    block (nothing links to it statelessly)
+#  * signature bytes: accepted iff secp256k1 verify still accepts (decided by the model from the measured `ver` leaf)
+#  * stand-alone VBK header fields other than height/difficulty under regtest (PoW limit is trivial)
+
+
+def gen_payload_cases(ctx):
+    r = ctx.rng
+    C = Cases()
+    quick = ctx.tier == "quick"
+    reps = 1 if quick else 6
+
+    def bits(n, count):
+        return sorted({r.below(n) for _ in range(count)})
+
+    for v in range(WORLD["nvtb"]):
+        C.add("vtb/honest", "vtb", str(v), "none", "0", "0", "A")
+        C.add("vtb/honest", "poptx", str(v), "none", "0", "0", "A")
+        C.add("vtb/honest-resigned", "poptx", str(v), "none", "0", "1", "A")
+    for v in ([0, 3] if quick else range(WORLD["nvtb"])):
+        V = str(v)
+        # unsigned part of the VTB
+        for k in range(32):
+            C.add("vtb/v.mp.index", "vtb", V, "v.mp.index", str(k), "0", "R" if k < WORLD["vtblayers"] - 2 else "N")
+            C.add("vtb/v.mp.tree", "vtb", V, "v.mp.tree", str(k), "0", "R" if k == 0 else "N")
+        for layer in range(WORLD["vtblayers"]):
+            for b in bits(256, 2 * reps):
+                C.add("vtb/v.mp.layer", "vtb", V, "v.mp.layer", str(layer * 256 + b), "0", "R")
+        for b in bits(256, 4 * reps):
+            C.add("vtb/v.mp.subject", "vtb", V, "v.mp.subject", str(b), "0", "R")
+        for k in range(WORLD["vtblayers"]):
+            C.add("vtb/v.mp.drop", "vtb", V, "v.mp.drop", str(k), "0", "R")
+            C.add("vtb/v.mp.add", "vtb", V, "v.mp.add", str(k), "0", "R")
+        for b in bits(128, 3 * reps):
+            C.add("vtb/v.cb.mroot", "vtb", V, "v.cb.mroot", str(b), "0", "R")
+        for f in ("height", "time", "nonce", "prev", "ks1", "ks2", "version"):
+            C.add("vtb/v.cb.other", "vtb", V, "v.cb." + f, str(r.range(1, 60)), "0", "N")
+        # signed part, not re-signed: the signature (at the latest) must reject; re-signed: the specific rule must
+        signed = [("t.net", [0, 0xaa, 0xff, 256], "R"), ("t.type", [7], "N"), ("t.addr", [0], "R"), ("t.pubkey", [0] + bits(700, 2), "R"),
+                  ("t.btctx.ins", bits(90, 3 * reps), "R"), ("t.btctx.trunc", [1, 2, 40], "R"), ("t.btctx", bits(8 * 80, 4 * reps), "R"),
+                  ("t.mp.layer", [l * 256 + r.below(256) for l in range(WORLD["btclayers"])], "R"), ("t.mp.subject", bits(256, 2 * reps), "R"),
+                  ("t.mp.drop", [0, 1, 2], "R"), ("t.mp.add", [0, 1, 3], "R"), ("t.bop.mroot", bits(256, 2 * reps), "R"),
+                  ("t.ctx.swap", [0, 1], "R"), ("t.ctx.dup", [0, 1, 2], "R"), ("t.ctx.hard", [0, 1, 2], "R")]
+        for f in ("height", "version", "prev", "ks1", "ks2", "mroot", "time", "nonce"):
+            signed.append(("t.pub." + f, [r.range(1, 50)], "R"))
+        for m, ks, claim in signed:
+            for k in ks:
+                C.add("vtb/raw/" + m, "vtb", V, m, str(k), "0", "R")
+                C.add("vtb/resigned/" + m, "poptx", V, m, str(k), "1", claim)
+                C.add("vtb/resigned-outer/" + m, "vtb", V, m, str(k), "1", "R")
+        for k in range(32):
+            C.add("vtb/resigned/t.mp.index", "poptx", V, "t.mp.index", str(k), "1", "R" if k < WORLD["btclayers"] else "N")
+        C.add("vtb/raw/t.mp.index", "vtb", V, "t.mp.index", "0", "0", "R")
+        for f in ("version", "prev", "time", "bits", "nonce"):
+            C.add("vtb/resigned/t.bop.other", "poptx", V, "t.bop." + f, str(r.range(1, 50)), "1", "N")
+            C.add("vtb/raw/t.bop.other", "vtb", V, "t.bop." + f, str(r.range(1, 50)), "0", "R")
+        for k in range(WORLD["ctx"]):
+            C.add("vtb/resigned/t.ctx.drop", "poptx", V, "t.ctx.drop", str(k), "1", "R" if 0 < k < WORLD["ctx"] - 1 else "N")
+            for f in ("prev", "mroot", "time", "nonce", "version"):
+                last = k == WORLD["ctx"] - 1
+                claim = "N" if (last and f != "prev") else "R"
+                C.add("vtb/resigned/t.ctx.field", "poptx", V, "t.ctx." + f, str(k * 1000 + r.range(0, 200)), "1", claim)
+        for b in bits(560, 6 * reps):
+            C.add("vtb/t.sig", "vtb", V, "t.sig", str(b), "0", "N")
+        C.add("vtb/t.sig", "vtb", V, "t.sig.trunc", "0", "0", "N")
+    if not quick:
+        C.add("vtb/ctx-limit", "poptx", "0", "t.ctx.many", "65536", "1", "R")
+        C.add("vtb/ctx-limit", "poptx", "0", "t.ctx.many", "65535", "1", "N")
+    # ATVs
+    for v in range(WORLD["natv"]):
+        C.add("atv/honest", "atv", str(v), "none", "0", "0", "A")
+        C.add("atv/honest", "vbktx", str(v), "none", "0", "0", "A")
+        C.add("atv/honest-resigned", "vbktx", str(v), "none", "0", "1", "A")
+    for v in ([0] if quick else range(WORLD["natv"])):
+        V = str(v)
+        for k in range(32):
+            C.add("atv/v.mp.index", "atv", V, "v.mp.index", str(k), "0", "R" if k < WORLD["atvlayers"] - 2 else "N")
+            C.add("atv/v.mp.tree", "atv", V, "v.mp.tree", str(k), "0", "R" if k == 0 else "N")
+        for layer in range(WORLD["atvlayers"]):
+            for b in bits(256, 2 * reps):
+                C.add("atv/v.mp.layer", "atv", V, "v.mp.layer", str(layer * 256 + b), "0", "R")
+        for b in bits(256, 4 * reps):
+            C.add("atv/v.mp.subject", "atv", V, "v.mp.subject", str(b), "0", "R")
+        for k in range(WORLD["atvlayers"]):
+            C.add("atv/v.mp.drop", "atv", V, "v.mp.drop", str(k), "0", "R")
+            C.add("atv/v.mp.add", "atv", V, "v.mp.add", str(k), "0", "R")
+        for b in bits(128, 3 * reps):
+            C.add("atv/v.cb.mroot", "atv", V, "v.cb.mroot", str(b), "0", "R")
+        for f in ("height", "time", "nonce", "prev", "ks1", "ks2", "version"):
+            C.add("atv/v.cb.other", "atv", V, "v.cb." + f, str(r.range(1, 60)), "0", "N")
+        signed = [("t.net", [0, 0xaa, 0xff, 256], "R"), ("t.type", [7], "N"), ("t.addr", [0], "R"), ("t.pubkey", [0] + bits(700, 2), "R"),
+                  ("t.amount", [-1000, 5], "N"), ("t.sigindex", [1], "N"), ("t.outputs", [256, 300], "R"), ("t.outputs", [1, 255], "N"),
+                  ("t.overspend", [1, 1000], "R"), ("t.overspend", [0], "N"), ("t.pd.id", [1, -1, 1 << 40], "R"),
+                  ("t.pd.header", bits(8 * 70, 4 * reps), "R"), ("t.pd.ctx", bits(8 * 40, 4 * reps), "R"), ("t.pd.ctx.trunc", [0], "R"),
+                  ("t.pd.payout", [3], "N")]
+        for m, ks, claim in signed:
+            for k in ks:
+                C.add("atv/raw/" + m, "atv", V, m, str(k), "0", "R")
+                C.add("atv/resigned/" + m, "vbktx", V, m, str(k), "1", claim)
+                C.add("atv/resigned-outer/" + m, "atv", V, m, str(k), "1", "R")
+        for b in bits(560, 6 * reps):
+            C.add("atv/t.sig", "atv", V, "t.sig", str(b), "0", "N")
+    # stand-alone VBK headers and header chains
+    for i in range(5):
+        C.add("vbkblock/honest", "vbkblock", str(i), "none", "0", "A")
+        C.add("vbkblock/diff", "vbkblock", str(i), "diff", str(0x1d00ffff), "R")
+        C.add("vbkblock/height", "vbkblock", str(i), "height", "2000000000", "R")
+        for f in ("nonce", "time", "mroot", "prev"):
+            C.add("vbkblock/other", "vbkblock", str(i), f, str(r.range(1, 90)), "N")
+    C.add("vbkblocks/honest", "vbkblocks", "none", "0", "A")
+    for k in range(4):
+        for m in ("swap", "dup", "hard", "height"):
+            C.add("vbkblocks/" + m, "vbkblocks", m, str(k), "R")
+    for k in range(3):
+        C.add("vbkblocks/drop", "vbkblocks", "drop", str(k), "R")
+    # PopData
+    for sc, ks, claim in (("honest", [0], "A"), ("empty", [0], "A"), ("fullvtb", [0], "A"), ("size", [0, 1], "A"), ("size", [-1, -100], "R"),
+                          ("dupvtb", [0, 1, 2], "R"), ("dupatv", [0, 1], "R"), ("dupvbk", [0, 1, 3], "R"),
+                          ("manyvbk", [0, 1], "R"), ("manyvtb", [0, 1], "R"), ("manyatv", [0, 1], "R"),
+                          ("badvtb", [0, 1, 2], "R"), ("badatv", [0, 1], "R"), ("badvbk", [0, 2], "R")):
+        for k in ks:
+            C.add("popdata/" + sc, "popdata", sc, str(k), claim)
+    return C
+
+
+POPTX_PATH = {1: "vbk-btc-context-too-many", 2: "vbkpoptx-bad-tx-byte", 4: "vbk-check-merkle-path+invalid-merklepath",
+              6: "vbk-check-signature+invalid-vbk-pop-tx"}
+VBKTX_PATH = {1: "vbktx-too-many-outputs", 2: "vbktx-bad-tx-byte", 3: "vbktx-overspending", 5: "vbktx-check-signature+invalid-vbk-tx"}
+
+
+def poptx_path(c, s):
+    if c == 3:
+        if s == 1:
+            return "vbk-check-btc-tx-for-pop+bad-pubdata"
+        return "vbk-check-btc-tx-for-pop+invalid-vbk-pop-tx" + {10: "", 11: "+bad-descriptor-bytes", 12: "+bad-section-offset",
+                                                              13: "+bad-section-length"}.get(s, "+?")
+    if c == 5:
+        return "vbk-check-btc-blocks+" + {1: "vbk-check-block+btc-bad-pow", 2: "btc-check-block+btc-bad-pow", 3: "invalid-btc-block"}.get(s, "?")
+    return POPTX_PATH.get(c, "?")
+
+
+def vbktx_path(c, s):
+    if c == 4:
+        return "vbktx-bad-publicationdata+" + {1: "bad-altchain-id", 2: "bad-contextinfo", 3: "bad-endorsed-header"}.get(s, "?")
+    return VBKTX_PATH.get(c, "?")
+
+
+def expected_path(op, c, s):
+    if op == "poptx":
+        return poptx_path(c, s)
+    if op == "vbktx":
+        return vbktx_path(c, s)
+    if op in ("vtb", "atv"):
+        if c == 20:
+            return "vbk-check-merkle-path+invalid-merklepath"
+        return ("vbk-check-pop-tx+" + poptx_path(c - 10, s)) if op == "vtb" else ("vbk-check-tx+" + vbktx_path(c - 10, s))
+    if op == "vbkblock":
+        return {1: "vbk-bad-block", 2: "vbk-bad-pow"}.get(c, "?")
+    if op == "vbkblocks":
+        return {1: "vbk-check-block", 2: "vbk-check-block", 3: "invalid-vbk-block"}.get(c, "?")
+    if op == "popdata":
+        if c == 8:
+            return "pop-sl-invalid-has-duplicates+duplicate-" + {1: "vbk", 2: "vtb", 3: "atv"}.get(s, "?")
+        return {1: "pop-sl-oversize", 2: "pop-sl-context-oversize", 3: "pop-sl-vtbs-oversize", 4: "pop-sl-atvs-oversize",
+                5: "pop-sl-invalid", 6: "pop-sl-invalid", 7: "pop-sl-invalid"}.get(c, "?")
+    return "?"
+
+
+def agree(op, mline, iline):
+    """model line `1` / `0 code sub` [| flags]; impl line `<0|1> <path> <changed> [flags]`. Returns None or a reason."""
+    mres, _, mflags = mline.partition(" | ")
+    it = iline.split()
+    if len(it) < 3:
+        return "malformed harness line"
+    mt = mres.split()
+    if mt[0] not in ("0", "1"):
+        return "model error: " + mline[:80]
+    if mt[0] != it[0]:
+        return "verdict differs"
+    if mt[0] == "0":
+        exp = expected_path(op, int(mt[1]), int(mt[2]))
+        if not (it[1] == exp or it[1].startswith(exp + "+")):
+            return "rejected at a different stage: model expects " + exp
+    if op == "popdata" and mflags.strip() != (it[3] if len(it) > 3 else ""):
+        return "checked flags differ: model " + mflags.strip()
+    return None
+
+
+def run_payload(ctx, model, harness):
+    if ctx.replay and "pcases" in ctx.replay:
+        cases = [tuple(c) for c in ctx.replay["pcases"]]
+        hist = {"replay": len(cases)}
+    elif ctx.replay:
+        return
+    else:
+        C = gen_payload_cases(ctx)
+        cases, hist = load_corpus("pcases") + C.cases, C.hist
+    cases = [("w0", "world", [])] + cases
+    inp = os.path.join(ctx.work, "payload.txt")
+    write_cases(inp, cases)
+    rc2, ires, orc, ierr = vlib.run_lines([harness], inp, timeout=1500)
+    w = ires.get("w0", "")
+    shape = dict(t.split("=") for t in w.split()[1:] if "=" in t)
+    if any(str(WORLD[k]) != shape.get(k) for k in WORLD):
+        ctx.broken.append("harness world shape changed: " + w[-120:] + " " + ierr[-200:])
+        return
+    byid = {c[0]: c for c in cases}
+    minp = os.path.join(ctx.work, "payload_model.txt")
+    n = 0
+    with open(minp, "w") as f:
+        for cid, op, args in cases[1:]:
+            line = ires.get(cid)
+            if line is None or line == "SKIP" or " |" not in line:
+                continue
+            f.write("%s %s %s\n" % (cid, op, line.split(" |", 1)[1].strip()))
+            n += 1
+    rc1, mres, _, merr = vlib.run_lines([model], minp, timeout=1500)
+    bad = []
+    verd = {}
+    for cid, op, args in cases[1:]:
+        line = ires.get(cid)
+        if line == "SKIP":
+            continue
+        if line is None or cid not in mres:
+            bad.append((cid, "missing result (model: %s, impl: %s)" % (mres.get(cid), line)))
+            continue
+        head = line.split(" |", 1)[0]
+        why = agree(op, mres[cid], head)
+        verd[head.split()[0]] = verd.get(head.split()[0], 0) + 1
+        if why:
+            bad.append((cid, why))
+    ctx.cov["evaluations"] += len(cases) - 1
+    ctx.cov["distinct_nontrivial"] += len({(op, tuple(a)) for _, op, a in cases})
+    ctx.cov["disagreements_checked"] += n
+    ctx.cov["traces_validated_against_impl"] += n - len(bad)
+    ctx.cov["payloads"] = {"mutation_histogram": hist, "impl_verdicts": verd, "world": w[-110:],
+                           "skipped": sum(1 for v in ires.values() if v == "SKIP")}
+    for c in cases[1:3]:
+        ctx.sample({"case": list(c), "impl": ires.get(c[0], "")[:160], "model": mres.get(c[0])})
+    # direct oracle: honest accepted, non-neutral mutation rejected, memo flag == verdict
+    for i, text in orc[:5]:
+        c = byid.get(i)
+        key = None
+        ctx.violation({"kind": "input", "pcases": [list(c)] if c else [], "oracle": text,
+                       "impl": ires.get(i, "")[:300], "model": mres.get(i)}, key=key)
+    # decision pipeline vs model: the model is the proved specification of the pipeline over the measured leaf facts
+    for cid, why in bad[:5]:
+        c = byid.get(cid)
+        ctx.violation({"kind": "input", "pcases": [list(c)] if c else [], "what": "decision pipeline differs from the proved model: " + why,
+                       "impl": ires.get(cid, "")[:300], "model": mres.get(cid)})
+    if rc1 != 0 or rc2 != 0:
+        ctx.broken.append("runner(payload): model rc=%d impl rc=%d %s" % (rc1, rc2, (merr + ierr)[-300:]))
+
+
 def _tmp(ctx, name, text):
     p = os.path.join(ctx.work, name)
     open(p, "w").write(text)
@@ -276,6 +540,7 @@ def run(ctx):
                        "byte at every position, interleavings, every n x offset-width x length-width x table-position split "
                        "shape, truncations, stray/partial magics, offsets at/past the end, fuzzed descriptors")
     run_embed(ctx, model, hs["h_stateless"], hsa.get("h_stateless") if oka else None)
+    run_payload(ctx, model, hs["h_stateless"])
     ctx.cov["trusted_base"] = [
         "section variables (oracles): sha256d, sha256, verify, address derivation, PoW predicates, altchain header check",
         "harness/h_stateless.cpp incl. its independent embedding decoder; props/_c05gen.py split encoder",
